@@ -4,5 +4,8 @@ MUTANTS = [
     ("request-svs-reversed", "secsgem/gem/status_data_collection_capability.py", "        for status_variable_id in function:", "        for status_variable_id in reversed(list(function)):"),
     ("revert-link-loss", "secsgem/gem/handler.py", "        self._protocol.events.disconnected += self._on_disconnected\n", ""),
     ("no-select-thread", "secsgem/hsms/protocol.py", "            self._select_req_thread.start()", "            pass"),
+    # --- automatic report ids, several events, variable lists of different lengths
+    ("report-id-counter-not-advanced", "secsgem/gem/hosthandler.py", "            self._report_id_counter += 1\n", "            pass\n"),
+    ("report-built-from-first-variable-only", "secsgem/gem/collection_event_capability.py", "            for var in report.vars:\n                if var in self._status_variables:", "            for var in report.vars[:1]:\n                if var in self._status_variables:"),
     ("go-online-ack-wrong", "secsgem/gem/state_models_capability.py", "            onlack = 2\n", "            onlack = 1\n"),
 ]
